@@ -498,6 +498,8 @@ def run(repo, rep):
     _memo_rule(repo, rep, 'C05', 'C05.Z1')
     from ..pitfalls import log_rule as _log_rule
     _log_rule(repo, rep, 'C05', 'C05.Z2')
+    from ..api_pitfalls import truth_rule as _truth_rule
+    _truth_rule(repo, rep, 'C05', 'C05.Z4')
     model = FsmModel(repo)
     pm = ProviderModel(repo, model)
     rep.trust('PS3.8 Table 9-10 event rows and state definitions as transcribed in pnd_static/oracles/ps3_8.py')
